@@ -881,6 +881,8 @@ type loopCtx struct {
 	auto      []autoInv
 	lexers    []ssa.Value
 	lexInv    func(st *State, v ssa.Value) string
+	freshPhis []*ssa.Phi
+	freshTerm func(t string, st *State) string
 }
 
 type autoInv struct {
@@ -1035,6 +1037,19 @@ func (a *Act) loopHead(b *ssa.BasicBlock, ins []edgeIn, backs []*ssa.BasicBlock,
 	}
 	p0 := a.pos(loopPos(b))
 	lname := fmt.Sprintf("%sloop%d", a.path, idx)
+	// slices that are built up locally (nil / make / append of themselves) stay in memory allocated by this call
+	for _, phi := range lc.phis {
+		if _, isSl := phi.Type().Underlying().(*types.Slice); isSl && rootsFresh(phi, map[ssa.Value]bool{}) {
+			lc.freshPhis = append(lc.freshPhis, phi)
+		}
+	}
+	freshTerm := func(t string, st *State) string {
+		return fmt.Sprintf("(and (or (= (sref %s) 0) (and (>= (sref %s) %s) (< (sref %s) %s))) (<= 0 (soff %s)) (<= 0 (sllen %s)) (<= (sllen %s) (scap %s)))", t, t, g.entry.Next, t, st.Next, t, t, t, t)
+	}
+	for _, phi := range lc.freshPhis {
+		g.oblige("inv-init", lname+":auto:fresh("+phi.Comment+")", reach, freshTerm(entryEnv[phi], stIn), p0, "automatic invariant: locally built slice stays in fresh memory")
+	}
+	lc.freshTerm = freshTerm
 	lc.lexers = a.lexersLiveAt(b)
 	mcLex := findMacro("lexOK")
 	lexInv := func(st *State, v ssa.Value) string {
@@ -1131,6 +1146,9 @@ func (a *Act) loopHead(b *ssa.BasicBlock, ins []edgeIn, backs []*ssa.BasicBlock,
 	}
 	for _, lv := range lc.lexers {
 		g.assumeIf(reach, lexInv(st, lv))
+	}
+	for _, phi := range lc.freshPhis {
+		g.assumeIf(reach, freshTerm(headEnv[phi], st))
 	}
 	lc.lexInv = lexInv
 	lc.headState = st.clone()
@@ -1296,6 +1314,9 @@ func (a *Act) backEdge(from *ssa.BasicBlock, hdr *ssa.BasicBlock, cond string, s
 	}
 	for _, lv := range lc.lexers {
 		g.oblige("inv-preserve", fmt.Sprintf("%s:auto:lexOK(%s):edge%d", lname, lv.Name(), be), cond, lc.lexInv(st, lv), p1, "automatic invariant: the lexer stays well-formed")
+	}
+	for _, phi := range lc.freshPhis {
+		g.oblige("inv-preserve", fmt.Sprintf("%s:auto:fresh(%s):edge%d", lname, phi.Comment, be), cond, lc.freshTerm(env[phi], st), p1, "automatic invariant: locally built slice stays in fresh memory")
 	}
 	if lc.spec != nil {
 		for i, cl := range lc.spec.Invariants {
